@@ -2,7 +2,7 @@
 import json, os
 from framework import Check, Case
 from jqlib import simple_run, run_impl, hx, unhx, RunRes, BUILD
-import genprog, jqlex
+import genprog, jqlex, pyref
 from jqlex import lex, glues
 
 STMT_START = {"Ident", "$", "Str", "Num", "true", "false", "null", "print", "if", "for", "while", "return", "break", "continue",
@@ -458,6 +458,17 @@ class C13(Check):
             o = "'" if q == '"' else '"'
             P.append(("BEGIN { print %sit%ss%s }" % (q, o, q), [], ("ok", "it%ss\n" % o)))
             P.append(("BEGIN { print %shéllo%s + %s wörld%s }" % (q, q, o, o), [], ("ok", "héllo wörld\n")))
+        # long spellings of number literals (13-19 characters, trailing and leading zeros): the value is the nearest double
+        # of the decimal text, whatever its length; two spellings of one decimal value are the same number
+        for _ in range(250 if tier == "quick" else 5000):
+            ip = str(rng.randrange(0, 1000))
+            nd = rng.randrange(10, 17)
+            fr = "".join(rng.choice("0123456789") for _ in range(nd - 1)) + rng.choice("123456789")
+            z = "0" * rng.randrange(0, 5)
+            lz = "0" * rng.choice([0, 0, 1, 2])
+            a, b = ip + "." + fr, lz + ip + "." + fr + z
+            P.append(("BEGIN { print %s\n print %s\n print %s == %s, %s - %s }" % (a, b, a, b, b, a), [],
+                      ("ok", "%s\n%s\ntrue 0\n" % (pyref.fmt_f(float(a)), pyref.fmt_f(float(b))))))
         for prog, inputs, want in P:
             meta = {"what": "probe"}
             if want is not None:
